@@ -151,9 +151,18 @@ def run(prog, chk):
     from ..ktry import parent_map
     nd = 0
     sim_file = R.sim_methods()[0].file if R.sim_methods() else ''
-    for f in list(R.sim_methods()) + [x for x in prog.functions if x.body and x.file == sim_file and x.kind == 'function']:
-        if not f.body:
+    from ..knorm import normalise
+    cands = [x for x in list(R.sim_methods()) + [x for x in prog.functions if x.body and x.file == sim_file and x.kind == 'function'] if x.body]
+    normd = {id(x): normalise(prog, x) for x in cands}
+
+    def covered(h):
+        # a helper whose every call was inlined into its callers (K-NORM) is examined there, with the callers' guards in view
+        cs = prog.callers(h)
+        return bool(cs) and all(id(c) in normd and not any(n_.get('k') in ('call', 'mcall') and n_.get('callee') == h.name for n_ in SX.walk(normd[id(c)].body)) for c, _ in cs)
+    for f0 in cands:
+        if covered(f0):
             continue
+        f = normd[id(f0)]
         pm = parent_map(f.body)
         for n in SX.walk(f.body, into_lambdas=False):
             isdiv = (n['k'] in ('bin', 'cassign') and n['op'] in ('/', '/=') and n.get('t') in ('double', 'float')) or \
@@ -162,7 +171,7 @@ def run(prog, chk):
                 continue
             nd += 1
             d = SX.strip(n['r'] if n['k'] != 'opcall' else n['args'][1])
-            ok, why = _divisor_ok(prog, f, n, d, pm, info if (f is m and info) else None)
+            ok, why = _divisor_ok(prog, f, n, d, pm, info if (f0 is m and info) else None)
             chk.ob('R03.3', f, n.get('ln', f.ln), ok, 'divisor %s: %s' % (SX.show(d)[:40], why), key='div:%s:%s' % (f.short, SX.show(d)[:24]))
     chk.count('floating-point divisions in the simulator (incl. file-local helpers)', nd, 2)
 
